@@ -28,6 +28,10 @@ type c16Case struct {
 	K    string `json:"k"`
 	OPC  string `json:"opc"`
 	OP   string `json:"op"`
+	// Prior: credential sets (K, OPc, OP) of UEs created earlier in the same process (another
+	// run / another configuration). Added after a seeded change that cached subscriptions by
+	// concatenated key: what one UE carries must not depend on UEs created before it.
+	Prior [][3]string `json:"prior,omitempty"`
 }
 
 func genHexKey(t *rapid.T, label string) string {
@@ -92,6 +96,24 @@ func genC16(t *rapid.T) c16Case {
 		c.OPC = rapid.StringN(0, 40, 80).Draw(t, "opcstr")
 		c.OP = rapid.StringN(0, 40, 80).Draw(t, "opstr")
 	}
+	for i, n := 0, rapid.IntRange(0, 3).Draw(t, "nprior"); i < n; i++ {
+		var p [3]string
+		switch rapid.IntRange(0, 4).Draw(t, "priorkind") {
+		case 0: // same K, OPc and OP swapped
+			p = [3]string{c.K, c.OP, c.OPC}
+		case 1: // same K, the concatenation OPc||OP split elsewhere
+			cat := c.OPC + c.OP
+			k := rapid.IntRange(0, len(cat)).Draw(t, "split")
+			p = [3]string{c.K, cat[:k], cat[k:]}
+		case 2: // same OPc/OP, another K
+			p = [3]string{genHexKey(t, "pk"), c.OPC, c.OP}
+		case 3: // K and OPc exchanged
+			p = [3]string{c.OPC, c.K, c.OP}
+		default:
+			p = [3]string{genHexKey(t, "pk"), genHexKey(t, "popc"), genHexKey(t, "pop")}
+		}
+		c.Prior = append(c.Prior, p)
+	}
 	return c
 }
 
@@ -120,6 +142,18 @@ func c16Oracle(c c16Case) ev.Verdict {
 	if len(imsi) > 15 || len(c.MSIN) < 1 || c.N < 1 || c.N > 10000 {
 		v.Skip = true
 		return v
+	}
+	for pi, p := range c.Prior {
+		ue := stgutg.CreateUE(imsi, 0, p[0], p[1], p[2])
+		a := ue.AuthenticationSubs
+		if a.PermanentKey == nil || a.PermanentKey.PermanentKeyValue != p[0] || a.Opc == nil || a.Opc.OpcValue != p[1] ||
+			a.Milenage == nil || a.Milenage.Op == nil || a.Milenage.Op.OpValue != p[2] {
+			v.Key, v.Err = "CreateUE:credentials-of-earlier-ue", fmt.Errorf("prior UE %d created with (K=%q, OPc=%q, OP=%q) carries %+v / %+v / %+v", pi, p[0], p[1], p[2], a.PermanentKey, a.Opc, a.Milenage)
+			return v
+		}
+	}
+	if len(c.Prior) > 0 {
+		v.Classes = append(v.Classes, "prior-ues-with-other-credentials")
 	}
 	var start int64
 	fmt.Sscanf(c.MSIN, "%d", &start)
